@@ -15,8 +15,8 @@ from engine import (lit, Ref, Agg, RString, RVec, Slice, is_sym, str_eq, b_and, 
 from explore import expect, conc, Violation
 
 PROPERTY = 'C06'
-BUDGET = {'quick': 900, 'thorough': 3000}
-BOUNDS = {'quick': dict(max_events=3), 'thorough': dict(max_events=5)}
+BUDGET = {'quick': 900, 'thorough': 1500}
+BOUNDS = {'quick': dict(max_events=3), 'thorough': dict(max_events=4)}
 ASSUMPTIONS = [
     'bounded: the scenarios listed in coverage.scenarios (<= 2 jobs of <= 2 processes in quick, <= 3 jobs / <= 3 processes in thorough) with at most max_events kernel events (one more for single-job, one less for >= 3-process scenarios); paths that would need more events are cut (counted)',
     'kernel contract of the waitpid stub: events only for live children; stop only of a running, continue only of a stopped process; exit/kill final; a blocking wait returns ECHILD only when no child is left; a non-blocking wait may always answer "nothing yet"',
